@@ -22,7 +22,7 @@ VARIABLES l, rl, skip, cnt
 svars == <<vars, l, rl, skip, cnt>>
 mvars == <<sn, sr, cn, cr, up, down, evq, seen, asked, cq, sq, tout, ctl, hist>>
 
-SInit == /\ Init /\ l = 1 /\ rl = [k \in Ids \X {"up", "down"} |-> FALSE] /\ skip = FALSE
+SInit == /\ Init /\ l = 1 /\ rl = [k \in Ids \X {"up", "down"} |-> "hold"] /\ skip = FALSE
          /\ cnt = [runs |-> 0, matched |-> 0, drift |-> 0, accepted |-> 0]
 
 Status(s) == CASE s = "connecting" -> "Connecting" [] s = "connected" -> "Connected" [] OTHER -> "Disc"
@@ -44,18 +44,20 @@ SNext ==
             /\ up' = [i \in Ids |-> {}] /\ down' = [i \in Ids |-> {}] /\ evq' = <<>> /\ seen' = [i \in Ids |-> FALSE] /\ asked' = {}
             /\ cq' = [i \in Ids |-> 0] /\ sq' = [i \in Ids |-> 0] /\ tout' = {}
             /\ ctl' = [steps |-> 0, ndisc |-> 0, bad |-> FALSE] /\ hist' = <<>>
-            /\ rl' = [k \in Ids \X {"up", "down"} |-> FALSE] /\ skip' = FALSE
+            /\ rl' = [k \in Ids \X {"up", "down"} |-> "hold"] /\ skip' = FALSE
             /\ cnt' = [cnt EXCEPT !.runs = @ + 1, !.accepted = IF ~skip /\ cnt.runs > 0 THEN @ + 1 ELSE @]
        ELSE IF skip THEN UNCHANGED <<mvars, rl, skip, cnt>>
        ELSE IF e.ev = "relay" /\ e.c \in Ids
-       THEN /\ rl' = [rl EXCEPT ![<<e.c, e.dir>>] = ("drop" \notin RangeOf(e.ops))] /\ UNCHANGED <<mvars, skip, cnt>>
+       THEN \* an empty `ops` means that nothing was queued: the relay action is as good as none
+            /\ rl' = [rl EXCEPT ![<<e.c, e.dir>>] = IF e.ops = <<>> THEN @ ELSE IF "drop" \in RangeOf(e.ops) THEN "drop" ELSE "pass"]
+            /\ UNCHANGED <<mvars, skip, cnt>>
        ELSE IF e.ev = "cstep" /\ e.c \in Ids
        THEN /\ ClientStep(e.c, rl[<<e.c, "down">>])
-            /\ UNCHANGED rl
+            /\ rl' = [rl EXCEPT ![<<e.c, "down">>] = "hold"]
             /\ IF Status(cr'[e.c]) = e.cs.status THEN Match ELSE Drift(e, <<"status", cr'[e.c], e.cs.status>>)
        ELSE IF e.ev = "sstep"
-       THEN LET pass == [i \in Ids |-> rl[<<i, "up">>]]
-                s == ServerAll(Ids, pass, [sn |-> sn, sr |-> sr, evq |-> <<>>, down |-> down, sq |-> sq, tout |-> tout])
+       THEN LET mode == [i \in Ids |-> rl[<<i, "up">>]]
+                s == ServerAll(Ids, mode, [sn |-> sn, sr |-> sr, evq |-> <<>>, down |-> down, sq |-> sq, tout |-> tout])
                 ids == SortedI({i \in Ids : s.sr[i] = "conn"})
                 nids == SortedI({i \in Ids : s.sn[i] = "conn"})
                 bad == {f \in {"ids", "nids", "evs"} :
@@ -63,12 +65,13 @@ SNext ==
                             \/ (f = "nids" /\ nids # e.view.nids)
                             \* the order of events of DIFFERENT ids follows a hash map in the code: compared per id
                             \/ (f = "evs" /\ \E i \in Ids : SelectSeq(EvView(s.evq), LAMBDA x : x.id = i) # SelectSeq(EvView(e.view.evs), LAMBDA x : x.id = i))}
-            IN /\ sn' = s.sn /\ sr' = s.sr /\ down' = s.down /\ up' = [i \in Ids |-> {}] /\ sq' = s.sq /\ tout' = s.tout
+            IN /\ sn' = s.sn /\ sr' = s.sr /\ down' = s.down /\ up' = [i \in Ids |-> IF mode[i] = "hold" THEN up[i] ELSE {}] /\ sq' = s.sq /\ tout' = s.tout
                /\ evq' = <<>>                                   \* the harness drains the server events with every step
                /\ seen' = [i \in Ids |-> IF \E j \in 1..Len(s.evq) : s.evq[j].id = i
                                          THEN s.evq[CHOOSE j \in 1..Len(s.evq) : s.evq[j].id = i /\ \A k \in (j + 1)..Len(s.evq) : s.evq[k].id # i].type = "Connected"
                                          ELSE seen[i]]
-               /\ UNCHANGED <<cn, cr, asked, cq, ctl, hist, rl>>
+               /\ rl' = [k \in Ids \X {"up", "down"} |-> IF k[2] = "up" THEN "hold" ELSE rl[k]]
+               /\ UNCHANGED <<cn, cr, asked, cq, ctl, hist>>
                /\ IF bad = {} THEN Match ELSE Drift(e, <<bad, ids, nids, EvView(s.evq)>>)
        ELSE IF e.ev = "disc" /\ e.c \in Ids
        THEN IF ENABLED Disc(e.c, e.who)
